@@ -12,7 +12,7 @@ import (
 )
 
 func (e *Engine) newFV(fn *ssa.Function, con *Contract, mode Mode) *FV {
-	v := &FV{eng: e, top: fn, con: con, mode: mode, preSeen: map[string]bool{}, arrays: map[string]string{}, refArrays: map[string]bool{}, stableArrays: map[string]bool{}, assumed: map[string]bool{}, trusted: map[string]bool{},
+	v := &FV{eng: e, top: fn, con: con, mode: mode, preSeen: map[string]bool{}, arrays: map[string]string{}, refArrays: map[string]bool{}, stableArrays: map[string]bool{}, freshSet: map[string]bool{}, sliceArr: map[string]Term{}, assumed: map[string]bool{}, trusted: map[string]bool{},
 		oblNames: map[string]int{}, strLits: map[string]Term{}, kindCount: map[string]int{}}
 	v.n0 = "N0!"
 	v.pre("n0", "(declare-const N0! Int)")
@@ -80,6 +80,7 @@ func shortFile(f string) string {
 // VerifyFunction generates all obligations for fn under its contract.
 func (e *Engine) VerifyFunction(fn *ssa.Function, con *Contract) (v *FV) {
 	v = e.newFV(fn, con, modeOf(con))
+	v.regions = con.Regions
 	v.curFnKey = shortKey(con.Key)
 	defer func() {
 		if r := recover(); r != nil {
@@ -97,6 +98,8 @@ func (e *Engine) VerifyFunction(fn *ssa.Function, con *Contract) (v *FV) {
 	v.topFrame = fr
 	st := &State{reach: "true", snap: &Snapshot{ep: v.newEpoch(0), over: map[string]Term{}}, env: map[string]TV{}, addr: map[string]TV{}, held: map[string]string{}}
 	st.snap.ep.initial = true
+	v.curSt = st
+	v.assume("true", fmt.Sprintf("(= %s (+ N0! 1))", v.topOf(st.snap)))
 	// parameters
 	for i, p := range fn.Params {
 		s := v.sortOf(p.Type())
@@ -304,8 +307,8 @@ func (v *FV) frameCheck(fr *Frame, st *State, con *Contract, vars map[string]TV,
 	sort.Strings(names)
 	k := v.declare("frame_k", "Int")
 	for _, a := range names {
-		if strings.HasPrefix(a, "RV_") {
-			continue // ghost iteration state of range loops
+		if strings.HasPrefix(a, "RV_") || strings.HasSuffix(a, "$n") || a == "TOP" {
+			continue // ghost iteration state of range loops; arrays of objects allocated here
 		}
 		// locals allocated by the function itself are > N0 and invisible to the caller
 		now := v.heapGet(st.snap, a)
@@ -330,6 +333,9 @@ func (v *FV) frameCheck(fr *Frame, st *State, con *Contract, vars map[string]TV,
 			continue
 		}
 		hyp := fmt.Sprintf("(and (<= %s %s) %s)", k, v.n0, strings.Join(excl, " "))
+		if v.regions {
+			hyp = fmt.Sprintf("(and (not %s) %s)", v.isNew(k), strings.Join(excl, " "))
+		}
 		goal := fmt.Sprintf("(=> %s (= (select %s %s) (select %s %s)))", hyp, now, k, was, k)
 		v.oblige("frame", a, "", "nothing outside modifies changed in "+a, st.reach, goal)
 	}
@@ -631,7 +637,7 @@ func (v *FV) ghostAssign(env *ExprEnv, st *State, text string) (err error) {
 	val := env.coerce(env.eval(re), gty, v.ghostSort(gty))
 	arr := "G_" + mangle(shortPkg(g.Owner)+"_"+g.Name)
 	v.regArray(arr, fmt.Sprintf("(Array Int %s)", v.ghostSort(gty)))
-	v.heapSet(st.snap, arr, fmt.Sprintf("(store %s %s %s)", v.heapGet(st.snap, arr), base.T, val.T))
+	v.wr(st.snap, arr, base.T, val.T)
 	return nil
 }
 
@@ -669,7 +675,7 @@ func (v *FV) allowedLocs(fr *Frame, st *State, locs []string, con *Contract, var
 func (v *FV) loopFrameTerm(fr *Frame, st *State, arrs []string, allowed map[string][]Term) Term {
 	var parts []string
 	for _, a := range arrs {
-		if strings.HasPrefix(a, "RV_") {
+		if strings.HasPrefix(a, "RV_") || strings.HasSuffix(a, "$n") || a == "TOP" {
 			continue
 		}
 		now := v.heapGet(st.snap, a)
@@ -694,6 +700,9 @@ func (v *FV) loopFrameTerm(fr *Frame, st *State, arrs []string, allowed map[stri
 			continue
 		}
 		hyp := "(and (<= k N0!) " + strings.Join(excl, " ") + ")"
+		if v.regions {
+			hyp = "(and (not " + v.isNew("k") + ") " + strings.Join(excl, " ") + ")"
+		}
 		parts = append(parts, fmt.Sprintf("(forall ((k Int)) (! (=> %s (= (select %s k) (select %s k))) :pattern ((select %s k))))", hyp, now, was, now))
 	}
 	if len(parts) == 0 {
